@@ -501,16 +501,17 @@ CHECKS["C17"] = _core
 ARGV_CLASSES = ["w", "gnv", "gv", "gveq", "help", "version", "mpath", "eoo", "unk", "gonly", "aonly", "aonlyv", "astick"]
 
 
-def argv_consts(maxlen, classes=ARGV_CLASSES):
-    return {"Classes": list(classes), "MaxLen": maxlen, "AliasKinds": sorted(_fn.ALIASES), "Mode": "gen"}
+def argv_consts(maxlen, maxalias=5, classes=ARGV_CLASSES):
+    return {"Classes": list(classes), "MaxLen": maxlen, "AliasKinds": sorted(_fn.ALIASES),
+            "AliasChars": ["a", "s", "q", "d", "k"], "MaxAlias": maxalias, "Mode": "gen"}
 
 
 PLANS["C18"] = {
-    "clauses": ["C18_SameArgs", "C18_CommandNotValue", "C18_AliasAgrees"],
-    "module": "Argv.tla", "const_keys": ["Classes", "MaxLen", "AliasKinds", "Mode"],
+    "clauses": ["C18_SameArgs", "C18_CommandNotValue", "C18_AliasAgrees", "C18_AliasTokens"],
+    "module": "Argv.tla", "const_keys": ["Classes", "MaxLen", "AliasKinds", "AliasChars", "MaxAlias", "Mode"],
     "executor": _fn.execute_argv, "tagger": _fn.argv_tags, "end_event": {"ev": "reset", "run": "end"},
     "prebuild": _fn.build_gaifn, "chunk": 4000,
-    "expect_actions": {"any": ["Vec", "Alias"]},
+    "expect_actions": {"any": ["Vec", "Alias", "Tok"]},
     "rule": "every vector of lexical token classes up to the length bound (and every alias family) TLC enumerates is "
             "turned into real tokens (seeded choice per class) and driven through parse_git_cli_args / "
             "to_invocation_vec in-process; vectors with a top-level --help/--version are run through the real git "
@@ -525,7 +526,7 @@ PLANS["C18"] = {
              variants=[("-", "-")], per_tag=1, extra={"e2e_every": 12}),
     ],
     "thorough": [
-        dict(name="vectors", consts=argv_consts(4), invariants=["G_CommandNotValue", "G_AliasAgrees"], budget=400000,
+        dict(name="vectors", consts=argv_consts(4, 7), invariants=["G_CommandNotValue", "G_AliasAgrees"], budget=400000,
              variants=[("-", "-")], per_tag=1, extra={"e2e_every": 40}, timeout=3000),
     ],
 }
